@@ -163,6 +163,7 @@ func genC09(t *rapid.T, env *wire.GenEnv) c09Case {
 			c.ExtraPre = append(c.ExtraPre, m1, m2)
 			oc := old
 			in.Set = env.GenDataSet(t, &oc, 3)
+		case 4:
 			// data naming an announced template whose records cannot fit any set (field lengths summing to more than a
 			// datagram, also to more than 16 bits): nothing of it can be decoded, the neighbours must not notice
 			in.Kind = "oversized-template"
